@@ -267,7 +267,9 @@ def build_cm_docs(s, cfg, foreign, extra, tier):
     for seq in xm.sequences_upto(syms, L):
         n = xm.Node(root.ns, root.name, base_attrs, [kid(k) for k in seq])
         ok = tm.content_ok(seq)
-        if wit is not None and wit(seq) != ok:
+        # the `re` second witness backtracks catastrophically on long sequences over small alphabets (a C call that no watchdog can interrupt): it judges
+        # sequences of at most 6 symbols (and only models whose expanded regex is short), longer ones rest on the derivative/Glushkov model alone
+        if wit is not None and len(seq) <= 6 and wit(seq) != ok:
             dis += 1; continue
         docs.append(('enum', n))
     # attribute subsets on one valid child sequence
@@ -293,7 +295,7 @@ def build_cm_docs(s, cfg, foreign, extra, tier):
         if wit is not None and kind.startswith(('valid-walk', 'mut-')):
             seq = [c.key() for c in n.elems()]
             # backtracking `re` is exponential on nested nullable repetitions: the second witness is only asked about short sequences
-            if len(seq) <= 10 and wit(seq) != tm.content_ok(seq): dis += 1; continue
+            if len(seq) <= 6 and wit(seq) != tm.content_ok(seq): dis += 1; continue
         docs.append((kind, n))
     return orc, docs, L, dis, wit is not None, excl
 
